@@ -48,6 +48,25 @@ CHECKS["C03"] = dict(
     ref="4/C03, 2.4",
 )
 
+CHECKS["C04"] = dict(
+    technique="sentinel taint oracle on real auto-escaped renders (tainted data built from Z<Q/Z>Q/Z&Q/Z'Q/Z\"Q blocks, literals free of significant characters) with counterfactual re-render for '&', filters wrapped to name the first one returning Markup for tainted input",
+    text="Exploration: ~4e4 (quick) / ~1e6 (thorough) real renders under auto_escape=True of random statements around chains of 1-5 filters (all registered filters, data in every argument position) through outputs, captures, partials, macros, loops, template strings, ternaries, translate, block.super, plus a systematic filter x pre-state x sink sweep and date-cache sequences; any raw < > ' \" (after removing exact engine markups) or data '&' confirmed by the counterfactual is a violation.",
+    note="Trusted: markupsafe; the generator's literal alphabet assertion. Filters that cut text are not applied after newline_to_br (a mangled <br /> is indistinguishable from data).",
+    ref="4/C04",
+)
+CHECKS["C05"] = dict(
+    technique="attribute-access monitor (__getattribute__ spies on instances and metaclasses checked against a cited allow-list) + canary scan of output and of every wrapped filter's arguments/results + hidden-name relation",
+    text="Exploration: ~1.4e5 (quick) / 3e6 (thorough) real renders of (object shape x lookup site x attribute NAME x sync/async x auto_escape): every attribute name read on a context object by engine code is logged and must be in the documented-protocol allow-list; canary values held only in Python attributes/properties/method results/class names must never reach the output or a filter.",
+    note="Trusted: the committed allow-list (each entry cites docs/engine); implicit special-method lookups bypass __getattribute__ by design; exception messages are not scanned.",
+    ref="4/C05",
+)
+CHECKS["C19"] = dict(
+    technique="law checkers (reference definitions, inverse/idempotence/permutation/partition relations, string-key vs lambda agreement, input immutability) evaluated on real filter executions through templates and through the registry",
+    text="Exploration: ~1e6 (quick) / 3e7 (thorough) law evaluations over 61 filters (>= 2.8e3 each) on generated argument tuples of the documented types (unicode strings, ints of any magnitude, finite floats, numeric strings, arrays of scalars and hashes with duplicates, missing keys, mixed key types); every law cites filter_reference.md or a compliance case.",
+    note="Trusted: the law definitions (vf/c19_*); documented silent zones (half-way rounding, length == limit in truncate*, 1/true/1.0 mixtures) are excluded from the generated domain.",
+    ref="4/C19",
+)
+
 NOT_YET = {}
 
 def main():
